@@ -210,6 +210,13 @@ fn engine_mode(scen_path: &str, logp: &str, db: &str) {
         }
     }
     let _ = nreq;
+    // an engine that needs time to wind down after its input ended (it stays connected to its database until it exits)
+    for r in &rules {
+        let hit = r.get("start_db_prefix").and_then(|p| p.as_str()).map(|p| db.starts_with(p)).unwrap_or(false);
+        if let (true, Some(ms)) = (hit, r.get("linger_ms").and_then(|m| m.as_u64())) {
+            sleep_ms(ms);
+        }
+    }
     log(logp, json!({"t": now_ns().to_string(), "pid": pid, "db": db, "ev": "EOF"}));
 }
 
